@@ -106,7 +106,12 @@ class SchedDict(dict):
         return dict.__getitem__(self, key)
     def setdefault(self, key, default=None):
         self._pt('setdefault')
-        return dict.setdefault(self, key, default)
+        found = dict.__contains__(self, key)
+        if self.name == 'tr' and not found:
+            self.env.keep.append(default); self.env.builder[id(default)] = getattr(tl, 'tid', None)
+        r = dict.setdefault(self, key, default)
+        self._log('setdefault', key, found, r if self.name == 'tr' else None)
+        return r
 
 
 # ---------------------------------------------------------------- database, query shapes
@@ -114,7 +119,7 @@ class SchedDict(dict):
 class Env(object):
     def __init__(self):
         self.wd = ponyutil.workdir('c22')
-        path = os.path.join(self.wd, 'c22.sqlite')
+        path = self.path = os.path.join(self.wd, 'c22.sqlite')
         db = self.db = Database()
         class E(db.Entity):
             name = Required(str)
@@ -162,6 +167,10 @@ class Env(object):
         raise ValueError(v)
     def pinned(self, translator):
         return [[self.pkey(k), self.code(v)] for k, v in translator.fixed_param_values.items()]
+    def check_alive(self):
+        """the scratch database was removed under our feet (another process cleaning /verif/.work): infrastructure, not a verdict"""
+        if not os.path.exists(self.path):
+            raise RuntimeError('the scratch database %s disappeared during the run' % self.path)
     def clear_caches(self):
         dict.clear(self.tr)
         self.db._constructed_sql_cache.clear()
@@ -192,6 +201,7 @@ def make_shapes(env):
     def r_cond(n, x): return select(e for e in E if e.name[:n] != 'zz' and e.a >= x)
     def r_attr(attr): return select(getattr(e, attr) for e in E)
     def r_plain(x): return select(e for e in E if e.a >= x)
+    def r_elen(n): return select(e for e in E if e.name[:n] != e.name)      # entity rows that depend on the pinned bound
     def mk(n):
         def short(e): return e.name[:n]
         return short
@@ -226,6 +236,7 @@ def make_shapes(env):
     add('r_cond', r_cond, [('n', IN), ('x', [0, 2, 4])], [('n', STOP)], True, 'entity')
     add('r_attr', r_attr, [('attr', ['a', 'b', 'name'])], [('attr', ATTR)], True, 'scalar')
     add('r_plain', r_plain, [('x', [0, 2, 4])], [], True, 'entity')
+    add('r_elen', r_elen, [('n', [1, 2, 3])], [('n', STOP)], True, 'entity')
     add('r_hyb', r_hyb, [('n', [1, 2, 3])], [('n', STOP)], True, 'str', cacheable=False, hybrid=('n',), funcstale=True)
     add('r_glob', r_glob, [('G_SLICE', [G_SLICE])], [('G_SLICE', STOP)], True, 'str', hybrid=('G_SLICE',), funcstale=True)
     add('r_sub', r_sub, [('n', [1, 2, 3, -1])], [('n', STOP)], True, 'entity')
@@ -499,6 +510,13 @@ def template_programs():
     P.append(('text-filter-vs-order', [[rq('r_plain', x=0), rq('f_wheretxt', base=0), rq('f_filttxt', base=0)], [rq('r_plain', x=0), rq('f_ordtxt', base=0)]]))
     P.append(('order-attrs', [[rq('r_plain', x=0), rq('f_orda', base=0)], [rq('r_plain', x=0), rq('f_ordd', base=0), rq('f_orda', base=0)]]))
     P.append(('kw-none', [[rq('r_plain', x=0), rq('f_kwb', base=0, v=None)], [rq('r_plain', x=0), rq('f_kwb', base=0, v=6), rq('f_kwb', base=0, v=None)]]))
+    # the three stores of Query._order_by (numbers, attributes, without_order) over roots pinned to DIFFERENT values per thread:
+    # all interleavings include "B stores between A's lookup and A's store"
+    P.append(('orderby-number-getattr', [[rq('r_attr', attr='a'), rq('f_ordn', base=0)], [rq('r_attr', attr='b'), rq('f_ordn', base=0)]]))
+    P.append(('orderby-number-slice', [[rq('r_stop', n=2), rq('f_ordn', base=0)], [rq('r_stop', n=3), rq('f_ordn', base=0)]]))
+    P.append(('orderby-attr-pinned', [[rq('r_elen', n=1), rq('f_orda', base=0)], [rq('r_elen', n=2), rq('f_orda', base=0), rq('f_ordd', base=0)]]))
+    P.append(('without-order-pinned', [[rq('r_stop', n=2), rq('f_noord', base=0)], [rq('r_stop', n=3), rq('f_noord', base=0)]]))
+    P.append(('without-order-entity', [[rq('r_elen', n=1), rq('f_orda', base=0), rq('f_noord', base=1)], [rq('r_elen', n=3), rq('f_orda', base=0), rq('f_noord', base=1)]]))
     P.append(('twice', [[rq('r_twice', n=1), rq('r_twice', n=2)], [rq('r_twice', n=2)]]))
     P.append(('none-values', [[rq('r_stop', n=None), rq('r_stop', n=0)], [rq('r_stop', n=-1), rq('r_both', m=None, n=2)]]))
     P.append(('three', [[rq('r_stop', n=1)], [rq('r_stop', n=2)], [rq('r_stop', n=3), rq('r_stop', n=1)]]))
@@ -555,6 +573,7 @@ def check_runs(ctx, batch, env, case, runs, label, old=False):
         if not old:
             bad = oracle(case, tr)
             if bad:
+                env.check_alive()
                 b = bad[0]
                 kind = b['got'][0] if b['got'][0] != 'ok' else 'rows'
                 ctx.violation('a thread running concurrently with others got a result different from the one it gets alone '
@@ -586,7 +605,7 @@ def check_case_static(ctx, batch, env, case, label):
 
 def part1(ctx, env):
     batch = Batch(ctx)
-    limit = ctx.scale(70, 500)
+    limit = ctx.scale(50, 500)
     for name, progs in template_programs():
         case = Case(env, progs)
         check_case_static(ctx, batch, env, case, name)
@@ -736,6 +755,7 @@ def part2(ctx, env):
             for t, out in enumerate(tr['outs']):
                 got = out['results'] if not out['crash'] else [['crash', out['crash']]]
                 if got != solo[t]:
+                    env.check_alive()
                     j = next((k for k, (a, b) in enumerate(itertools.zip_longest(got, solo[t])) if a != b), 0)
                     opname = desc[t][j][0] if j < len(desc[t]) else '?'
                     kind_ = got[j][0] if j < len(got) and got[j][0] != 'ok' else 'value'
